@@ -32,6 +32,18 @@ class RealKa:
         self.flagged = 0         # respond-flagged KEEPALIVEs the server sent
         self.to_at_last = 0      # number of time-out callbacks seen when the last KEEPALIVE arrived
         self.blocked = False
+        self.base = 0            # time the current connection was made
+        self.at_base = {'timeouts': 0, 'closes': 0, 'enqKa': 0, 'txKa': 0, 'txEcho': 0}     # cumulative counters at that moment
+
+    def reconnect(self):
+        self.ex.do(['reconnect'])
+        self.ex.do(['settle'])
+        o = self.observe()
+        self.base = self.last = self.now
+        self.at_base = {key: o[key] for key in self.at_base}
+        self.to_at_last = o['timeouts']
+        self.flagged = 0
+        self.blocked = False
 
     def tick(self):
         self.ex.do(['advance', UNIT_MS])
@@ -50,19 +62,22 @@ class RealKa:
     def oracle(self):
         """the C15 invariants of KeepAlive.tla evaluated on what the real client did (the aftermath of a time-out - how
         many more frames a client that has declared the server dead still writes, when it closes - is not part of C15)"""
-        o = self.observe()
+        cum = self.observe()
+        o = dict(cum)
+        for key, b in self.at_base.items():
+            o[key] = cum[key] - b           # of the current connection
         L, P = self.L, self.P
         for g in o['gaps']:
             if g <= L * UNIT_MS:
                 return ('C15.no_false_timeout', 'on_keepalive_timeout invoked with %d ms since the last KEEPALIVE, maximum lifetime %d ms' % (g, L * UNIT_MS))
-        if o['timeouts'] > self.to_at_last and self.now - self.last <= L:
+        if cum['timeouts'] > self.to_at_last and self.now - self.last <= L:
             return ('C15.no_false_timeout', 'on_keepalive_timeout invoked at time %d, last KEEPALIVE at %d, lifetime %d' % (self.now, self.last, L))
-        if o['closes'] == 0 and self.now - self.last >= 2 * L and o['timeouts'] <= self.to_at_last:
+        if o['closes'] == 0 and self.now - self.last >= 2 * L and cum['timeouts'] <= self.to_at_last:
             return ('C15.timeout_detected', 'server silent since %d, now %d (lifetime %d): on_keepalive_timeout not invoked' % (self.last, self.now, L))
         if o['timeouts'] == 0 and o['closes'] == 0:
-            if o['enqKa'] != self.now // P:
-                return ('C15.periodic', '%d respond-flagged KEEPALIVEs queued by time %d, period %d%s' % (
-                    o['enqKa'], self.now, P, ' (the transport is not accepting writes)' if self.blocked else ''))
+            if o['enqKa'] != (self.now - self.base) // P:
+                return ('C15.periodic', '%d respond-flagged KEEPALIVEs queued by time %d on the connection made at %d, period %d%s' % (
+                    o['enqKa'], self.now, self.base, P, ' (the transport is not accepting writes)' if self.blocked else ''))
             if not self.blocked and o['txKa'] != o['enqKa']:
                 return ('C15.periodic', '%d of %d queued KEEPALIVEs written although the transport accepts writes' % (o['txKa'], o['enqKa']))
             if not self.blocked and o['txEcho'] != self.flagged:
@@ -126,6 +141,8 @@ def _apply(real, name, args, before):
         real.block()
     elif name == 'Unblock':
         real.unblock()
+    elif name == 'Reconnect':
+        real.reconnect()
     else:
         raise common.Machinery('unknown KeepAlive action %r' % name)
     return None
@@ -147,7 +164,7 @@ PAIRS = [(2, 3), (3, 2), (2, 2), (1, 4)]
 
 def check(v):
     from concurrent.futures import ThreadPoolExecutor
-    cfgs = ['KeepAlive_p%dl%d.cfg' % pl for pl in PAIRS]
+    cfgs = ['KeepAlive_p%dl%d.cfg' % pl for pl in PAIRS] + ['KeepAlive_reconnect_wide.cfg' if common.tier() == 'thorough' else 'KeepAlive_reconnect.cfg']
 
     def one(c):
         return c, tlc.run('KeepAlive', c, workers=2, timeout=900, name='ka_' + c.replace('.cfg', ''))
@@ -165,6 +182,9 @@ def check(v):
     desc = lambda s: 'now=%d last=%d alive=%s txKa=%d txEcho=%d timeouts=%d closes=%d' % (
         s['now'], s['last'], s['alive'], s['txKa'], s['txEcho'], s['timeouts'], s['closes'])
     pairs = PAIRS if common.tier() == 'thorough' else PAIRS[:2]
+    # keep-alive belongs to the connection: the same with a reconnect() at every point (healthy, after a time-out, after the close)
+    rcfg = 'KeepAlive_reconnect_wide.cfg' if common.tier() == 'thorough' else 'KeepAlive_reconnect.cfg'
     for (p, l) in pairs:
         graphreplay.replay(v, 'KeepAlive', 'KeepAlive_p%dl%d.cfg' % (p, l), _mk(p, l), _apply, _compare, _state, prop='C15',
                            label='ka_p%dl%d' % (p, l), describe=desc)
+    graphreplay.replay(v, 'KeepAlive', rcfg, _mk(2, 3), _apply, _compare, _state, prop='C15', label='ka_reconnect', describe=desc)
